@@ -9,9 +9,11 @@ V: CrossSdkTrace (TLC: pairwise agreement with the Python SDK per clause and tar
 from __future__ import annotations
 
 import concurrent.futures
+import hashlib
 import json
 import os
 import re
+import shutil
 import threading
 from typing import Any, Dict, List
 
@@ -25,9 +27,15 @@ def _errs(o: Dict[str, Any]) -> set:
 
 
 def _reduce_for_replay(G: Dict[str, Any], case: Dict[str, Any]) -> Dict[str, Any]:
-    """Keep only the single case of a replay file (plus the per-model tables, which are cheap)."""
-    out = {"models": G["models"], "families": []}
+    """Keep only the meta-model and the single case of a replay file (the per-model tables are cheap and stay)."""
+    model = case.get("model")
+    models = [e for e in G["models"] if e["model"]["name"] == model] or G["models"]
+    for e in models:
+        e["targets"] = ["cpp", "java"]
+    out = {"models": models, "families": []}
     for f in G["families"]:
+        if f["model"] not in [e["model"]["name"] for e in models]:
+            continue
         g = dict(f)
         g["instances"], g["docs"] = [], []
         if f["name"] == case.get("fam"):
@@ -48,11 +56,22 @@ def main() -> int:
     # ---- G ------------------------------------------------------------------------------------------
     cases_p = ck.work / "cases.json"
     if reuse:
-        import shutil
-
         shutil.copy(os.path.join(reuse, "cases.json"), cases_p)
     else:
-        ck.tlc("CrossSdkGen", what="G: instances, mutated documents, enumeration probes", env={"VERIF_OUT": str(cases_p), "VERIF_TIER": ck.tier}, count=False, timeout=900)
+        # G depends only on the spec and the tier: cached under work/gen/<sha of the modules + tier> (DESIGN section 2)
+        h = hashlib.sha1(ck.tier.encode())
+        for name in ("CrossSdk.tla", "CrossSdkModels.tla", "CrossSdkGen.tla", "CrossSdkGen.cfg"):
+            h.update((core.SPECS / name).read_bytes())
+        cache = core.VERIF / "work" / "gen" / ("C09-%s.json" % h.hexdigest()[:16])
+        if cache.exists():
+            shutil.copy(cache, cases_p)
+            ck.notes.append("G: reused %s" % cache.name)
+        else:
+            ck.tlc("CrossSdkGen", what="G: instances, mutated documents, enumeration probes", env={"VERIF_OUT": str(cases_p), "VERIF_TIER": ck.tier}, count=False, timeout=1800)
+            cache.parent.mkdir(parents=True, exist_ok=True)
+            tmp = cache.with_suffix(".tmp%d" % os.getpid())
+            shutil.copy(cases_p, tmp)
+            os.replace(tmp, cache)
     G = core.read_json(cases_p)
     if replay and not reuse:
         rp = core.read_json(__import__("pathlib").Path(replay))
@@ -106,18 +125,19 @@ def main() -> int:
     ck.notes.append("R timings: %s" % json.dumps(obs["timings"]))
 
     builds = {(r["model"], r["target"]): r for r in recs if r["kind"] == "build"}
+    must = G["models"][0]["model"]["name"]   # "main" (or the single meta-model of a replay)
     for target in ("cpp", "java"):
-        b = builds.get(("main", target))
+        b = builds.get((must, target))
         if b is None or b["status"] in ("gen_exception", "gen_rejected", "run_failed", "not_built"):
-            raise core.MachineryFailure("no observation of the %s SDK of the main meta-model: %s" % (target, b and (b["status"] + " " + b["detail"][:300])))
-    if builds[("main", "py")]["status"] != "ok":
-        raise core.MachineryFailure("the Python SDK of the main meta-model could not be generated/imported: %s" % builds[("main", "py")]["detail"][:300])
+            raise core.MachineryFailure("no observation of the %s SDK of the %s meta-model: %s" % (target, must, b and (b["status"] + " " + b["detail"][:300])))
+    if builds[(must, "py")]["status"] != "ok":
+        raise core.MachineryFailure("the Python SDK of the %s meta-model could not be generated/imported: %s" % (must, builds[(must, "py")]["detail"][:300]))
 
     # ---- V ------------------------------------------------------------------------------------------
     counts = [0, 0, 0, 0, 0, 0]
     ref_doubts: List[str] = []
     n_pair = 0
-    n_chunks = max(1, min(4, (len(recs) + 399) // 400))
+    n_chunks = max(1, min(4 if ck.quick else 8, (len(recs) + 399) // 400))
     size = (len(recs) + n_chunks - 1) // n_chunks
     parts = [recs[off : off + size] for off in range(0, len(recs), size)]
 
@@ -126,7 +146,7 @@ def main() -> int:
         core.write_json(pp, parts[q])
         return core.run_tlc("CrossSdkTrace", None, workdir=ck.work / ("v%d" % q), env={"VERIF_OBS": str(pp), "VERIF_CASES": str(models_p)}, cont=True, workers=1, timeout=2400, jvm=("-Xmx3g", "-XX:ParallelGCThreads=2"))
 
-    with concurrent.futures.ThreadPoolExecutor(max_workers=4) as ex:
+    with concurrent.futures.ThreadPoolExecutor(max_workers=4 if ck.quick else 8) as ex:
         v_results = list(ex.map(run_v, range(len(parts))))
     for part, res in zip(parts, v_results):
         ck.cov["states"] += res.distinct
@@ -200,7 +220,7 @@ def main() -> int:
                 for x in b["values"]:
                     y = av.get(x["name"])
                     if y is None or y["value"] != x["value"]:
-                        ck.violation({"clause": inv, "target": target, "const_kind": x["value"]["k"], "const": x["name"]}, inv, dict(base_case, const=x["name"]), {target: y, "py": x}, detail="constant %s: python %s, %s %s" % (x["name"], json.dumps(x["value"])[:120], target, json.dumps(y)[:160]))
+                        ck.violation({"clause": inv, "target": target, "const_kind": x["value"]["k"], "feature": cl.const_feature(x["value"])}, inv, dict(base_case, const=x["name"]), {target: y, "py": x}, detail="constant %s: python %s, %s %s" % (x["name"], json.dumps(x["value"])[:120], target, json.dumps(y)[:160]))
             elif r["kind"] == "enums":
                 a, b = r[target], r["py"]
                 for x, y in zip(b["values"], a["values"] + [None] * len(b["values"])):
@@ -209,17 +229,22 @@ def main() -> int:
 
     n_inst, n_failing, n_docs, n_rej, n_ok, n_either = counts
     n_tables = sum(1 for r in recs if r["kind"] in ("consts", "enums", "build"))
+    # the comparison grid (descriptions "... must hold.") makes nearly every instance fail something; count the
+    # instances on which an invariant *outside* the grid fails (the Python SDK's list is tied to RefErrors by Inv_Ref_Verify)
+    n_beyond_grid = sum(1 for r in recs if r["kind"] == "inst" and any(not e["cause"].endswith(" must hold.") for e in r["py"]["errors"]))
     ck.cov["evaluations"] = n_inst + n_docs + n_tables
     ck.cov["traces_validated_against_impl"] = len(recs)
-    ck.cov["distinct_nontrivial"] = n_failing + n_rej + n_ok
+    ck.cov["distinct_nontrivial"] = n_beyond_grid + n_rej + n_ok
     ck.cov["rule"] = (
-        "G: TLC enumerates, per family of specs/CrossSdkModels.tla, the full product of the boundary value alphabets "
+        "G: TLC enumerates, per family of specs/CrossSdkModels.tla, the %s of the boundary value alphabets "
         "(%d instances) and every mutant of the documents of the base instances (%d documents: each JSON location x a palette "
         "of 10 replacement values, member/item removal, extra member), plus %d constant/enumeration/build tables; "
-        "non-trivial = an instance for which the reference semantics (CrossSdk!RefErrors) yields at least one failing invariant "
-        "(%d) or a mutated document the reference classifies as must-reject (%d) or must-accept-with-value (%d); "
+        "non-trivial = an instance on which the reference semantics (CrossSdk!RefErrors) has a failing invariant other than "
+        "those of the generated comparison grid (%d; %d fail at least one invariant counting the grid), or a mutated document "
+        "the reference classifies as must-reject (%d) or must-accept-with-value (%d); "
         "%d documents are 'either' (verdict not fixed by the sentence; only pairwise agreement is checked). "
-        "Records are distinct by construction (set-valued enumeration)." % (n_inst, n_docs, n_tables, n_failing, n_rej, n_ok, n_either)
+        "Records are distinct by construction (set-valued enumeration)."
+        % ("covering sub-products" if ck.quick else "full product", n_inst, n_docs, n_tables, n_beyond_grid, n_failing, n_rej, n_ok, n_either)
     )
     ck.cov["exhaustive"] = False
     ck.cov["pairwise_disagreements"] = n_pair
@@ -244,7 +269,7 @@ def main() -> int:
         "descriptions are compared after removing the fixed prefix 'Invariant violated:\\n' the Java target adds; property names in paths case- and underscore-insensitively; JSON numbers by value (1 == 1.0)",
         "TypeScript SDK: not executable here (no tsc; node 20 cannot strip types). Java jsonization: not compilable here (Jackson absent)",
     ]
-    if n_failing + n_rej + n_ok == 0 and not replay:
+    if n_beyond_grid + n_rej + n_ok == 0 and not replay:
         raise core.MachineryFailure("vacuous run")
     # oracle doubts: only when no unexplained pairwise disagreement is to be reported
     known = [f for f in core.load_known() if f["property"] == "C09" and f.get("status") == "open"]
